@@ -31,12 +31,17 @@ type BufConn struct {
 // NewBufPipe returns the two ends of a connection. Addresses look like TCP
 // loopback endpoints with the given ports.
 func NewBufPipe(portA, portB int) (*BufConn, *BufConn) {
+	return NewBufPipeIP(net.IPv4(127, 0, 0, 1), portA, net.IPv4(127, 0, 0, 1), portB)
+}
+
+// NewBufPipeIP is NewBufPipe with chosen endpoint addresses (IPv4 or IPv6).
+func NewBufPipeIP(ipA net.IP, portA int, ipB net.IP, portB int) (*BufConn, *BufConn) {
 	mu := &sync.Mutex{}
 	cond := sync.NewCond(mu)
 	var ab, ba []byte
 	var ca, cb bool
-	aAddr := &net.TCPAddr{IP: net.IPv4(127, 0, 0, 1), Port: portA}
-	bAddr := &net.TCPAddr{IP: net.IPv4(127, 0, 0, 1), Port: portB}
+	aAddr := &net.TCPAddr{IP: ipA, Port: portA}
+	bAddr := &net.TCPAddr{IP: ipB, Port: portB}
 	a := &BufConn{mu: mu, cond: cond, in: &ba, out: &ab, closedR: &ca, closedW: &cb, local: aAddr, remote: bAddr}
 	b := &BufConn{mu: mu, cond: cond, in: &ab, out: &ba, closedR: &cb, closedW: &ca, local: bAddr, remote: aAddr}
 	return a, b
